@@ -4,6 +4,7 @@
     updater leaves the world at a prefix). *)
 From Coq Require Import List NArith Bool.
 From MOC.Model Require Import SetEffects SetEffects2.
+From MOC.Model Require MocSet MocSetBytes MocSetBytesProofs.
 Import ListNotations.
 Open Scope N_scope.
 
@@ -113,6 +114,28 @@ Example C16_nonvacuous :
                   (UAppend {| m_st := SValid; m_id := 11; m_depth := 5 |} 24 103) 3)) = None.
 Proof. repeat split; vm_compute; reflexivity. Qed.
 
+(** ---- byte level (Model/MocSetBytes.v): the three writes of an append, in the order the code issues them
+    (data at the byte the index designates, next index slot, metadata word).  Whatever an interrupted
+    append left after the data part ([junk]), the file after EACH write decodes to the state before
+    (first two writes) or to the state after (third write): a reader or a recovering writer started
+    between any two writes reads a consistent moc-set *)
+Theorem C16_append_writes_every_prefix_decodes :
+  forall n128 (ents : list MocSetBytes.sentry) (e : MocSetBytes.sentry) junk,
+  1 <= n128 -> (length ents < MocSetBytes.cap_of n128)%nat ->
+  Forall MocSetBytesProofs.entry_ok ents -> MocSetBytesProofs.entry_ok e ->
+  MocSetBytes.hdr_size n128 + N.of_nat (length (MocSetBytes.data_part (ents ++ [e]))) < 2 ^ 64 ->
+  map MocSetBytes.decode_file
+      (MocSetBytes.append_steps n128 ents e
+         (MocSetBytesProofs.layout_gen n128 ents (repeat 0 (MocSetBytes.cap_of n128 - length ents)) junk))
+  = [(n128, ents); (n128, ents); (n128, ents ++ [e])].
+Proof. exact MocSetBytesProofs.append_steps_decode. Qed.
+
+(** without leftovers the third write yields exactly the layout of the new state *)
+Theorem C16_append_final_file : forall n128 (ents : list MocSetBytes.sentry) (e : MocSetBytes.sentry),
+  (length ents < MocSetBytes.cap_of n128)%nat ->
+  nth 2 (MocSetBytes.append_steps n128 ents e (MocSetBytes.file_bytes n128 ents)) [] = MocSetBytes.file_bytes n128 (ents ++ [e]).
+Proof. exact MocSetBytesProofs.append_final_layout. Qed.
+
 Print Assumptions C16_append_every_boundary_consistent.
 Print Assumptions C16_meta_before_data_refuted.
 Print Assumptions C16_status_stores_keep_data.
@@ -121,3 +144,5 @@ Print Assumptions C16_later_write_keeps_earlier_segments.
 Print Assumptions C16_chgstatus_every_boundary_consistent.
 Print Assumptions C16_purge_every_boundary.
 Print Assumptions C16_purge_completed_view.
+Print Assumptions C16_append_writes_every_prefix_decodes.
+Print Assumptions C16_append_final_file.
